@@ -47,7 +47,7 @@ type G struct {
 	prio  int    // PCT priority
 	goid  uint64
 	last  string // latest instrumented scheduling point
-	Lib   bool // spawned from library code (site is not in a harness file)
+	Lib   bool   // spawned from library code (site is not in a harness file)
 }
 
 // Policy selects how preemption decisions are made.
@@ -671,7 +671,14 @@ func (s *Sched) Run(main func()) Outcome {
 	mg := s.newG("h/main", nil)
 	s.mu.Unlock()
 	raceEnable()
-	go s.body(mg, func() { main(); raceDisable(); s.mu.Lock(); mainDone = true; s.mu.Unlock(); raceEnable() })
+	go s.body(mg, func() {
+		main()
+		raceDisable()
+		s.mu.Lock()
+		mainDone = true
+		s.mu.Unlock()
+		raceEnable()
+	})
 	raceDisable()
 	defer raceEnable()
 
